@@ -46,7 +46,7 @@ MC_CONFIGS = {
     "canary_t": mc("MC_canary", "SpecCanary", env=1, edit=1, ann=0, agecap=2),   # 599 k distinct states, 2 min
     "canary_t2": mc("MC_canary", "SpecCanary", env=0, edit=1, ann=2, agecap=2),
     "canary_fail_q": mc("MC_canary", "SpecCanary", strat="MC_StratFailFast", env=1, edit=1, ann=0, agecap=2, kinds='{"restart"}'),
-    "canary_fail_t": mc("MC_canary", "SpecCanary", strat="MC_StratFailFast", env=1, edit=1, ann=1, agecap=2),
+    "canary_fail_t": mc("MC_canary", "SpecCanary", strat="MC_StratFailFast", env=1, edit=1, ann=1, agecap=2, kinds='{"restart", "fail", "unready"}'),
     "fine_q": mc("MC_canary", "SpecFine", strat="MC_StratFailFast", env=1, edit=1, ann=0, agecap=2, kinds='{"restart"}', fault=1),
     "fine_t": mc("MC_canary", "SpecFine", strat="MC_StratFailFast", env=1, edit=2, ann=1, agecap=2, kinds='{"restart", "fail"}', fault=2),
     "canary_narrow_t": mc("MC_canary", "SpecCanary", env=1, edit=1, ann=0, agecap=2, kinds='{"narrow", "lost"}'),
@@ -57,9 +57,9 @@ MC_CONFIGS = {
 # liveness (design level): (config, SPECIFICATION, temporal property)
 LIVE_CONFIGS = {
     "live_rollout_q": (mc("MC_rollout", "LiveSpec", env=0, edit=1, ann=0), "L_C02"),
-    "live_rollout_t": (mc("MC_rollout", "LiveSpec", env=1, edit=1, ann=0), "L_C02"),
+    "live_rollout_t": (mc("MC_rollout", "LiveSpec", nodes="MC_NodeSeq2", fits="MC_InitFits2", env=1, edit=1, ann=0, kinds='{"fail", "dup", "unready", "node"}'), "L_C02"),
     "live_canary_q": (mc("MC_canary", "LiveSpecCanary", env=0, edit=1, ann=0, agecap=2), "L_C02"),
-    "live_canary_t": (mc("MC_canary", "LiveSpecCanary", env=1, edit=1, ann=0, agecap=2), "L_C02"),
+    "live_canary_t": (mc("MC_canary", "LiveSpecCanary", env=1, edit=1, ann=0, agecap=2, kinds='{"restart", "fail"}'), "L_C02"),
     "live_fine_q": (mc("MC_canary", "LiveSpecFine", strat="MC_StratFailFast", env=1, edit=1, ann=0, agecap=2, kinds='{"restart"}', fault=1), "L_C07"),
     "live_c07_q": (mc("MC_canary", "LiveSpecCanary", strat="MC_StratFailFast", env=1, edit=1, ann=0, agecap=2, kinds='{"restart"}'), "L_C07"),
     "live_c07_t": (mc("MC_canary", "LiveSpecCanary", strat="MC_StratFailFast", env=1, edit=1, ann=1, agecap=2, kinds='{"restart", "fail"}'), "L_C07"),
